@@ -22,6 +22,9 @@ PROPERTY_MACHINES = {
 }
 
 VSIM = os.path.join(core.VERIF_ROOT, "bin", "vsim")
+# scratch runs (mutant self-tests) must not overwrite the registered evidence / replay files
+REPLAY_DIR = os.environ.get("VSIM_REPLAY_DIR") or os.path.join(core.VERIF_ROOT, "replays")
+EVIDENCE_DIR = os.environ.get("VSIM_EVIDENCE_DIR") or os.path.join(core.VERIF_ROOT, "evidence")
 
 
 def _pool(workers):
@@ -184,7 +187,7 @@ def cmd_check(args):
         if tot["harness_errors"]:
             harness_failed = True
             he = tot["harness_errors"][0]
-            path = os.path.join(core.VERIF_ROOT, "replays", "harness-%s-%d.json" % (mname, he["index"]))
+            path = os.path.join(REPLAY_DIR, "harness-%s-%d.json" % (mname, he["index"]))
             os.makedirs(os.path.dirname(path), exist_ok=True)
             with open(path, "w") as f:
                 json.dump(he, f, indent=1, default=str)
@@ -231,7 +234,7 @@ def cmd_check(args):
             tag = kid2 if kid2 else "%s-%s" % (inv, fam)
             sub = "known" if kid2 else "new"
             path = os.path.join(
-                core.VERIF_ROOT, "replays", sub, "%s-%s-%d.json" % (prop, _slug(tag), hist["header"]["run_seed"])
+                REPLAY_DIR, sub, "%s-%s-%d.json" % (prop, _slug(tag), hist["header"]["run_seed"])
             )
             core.write_replay(machine, hist, viol, path)
             rc, so, se = replay_in_fresh_interpreter(path)
@@ -319,8 +322,8 @@ def cmd_check(args):
         "violations": sum(1 for ln in all_lines),
         "exit_code": exit_code,
     }
-    os.makedirs(os.path.join(core.VERIF_ROOT, "evidence"), exist_ok=True)
-    with open(os.path.join(core.VERIF_ROOT, "evidence", prop + ".json"), "w") as f:
+    os.makedirs(EVIDENCE_DIR, exist_ok=True)
+    with open(os.path.join(EVIDENCE_DIR, prop + ".json"), "w") as f:
         json.dump(evidence, f, indent=1, sort_keys=True, default=str)
     print(
         "%s tier=%s seed=%d: %d histories, %d distinct non-trivial, %d raw violations (%d in known findings), exit %d, %.1fs"
